@@ -7,11 +7,11 @@ use serde::{Deserialize, Serialize};
 
 /// Address plan (all far away from the exe, heap, mmap area and stack of a non-ASLR process).
 pub const CTL_ADDR: u64 = 0x1000_0000_0000;
-pub const CTL_LEN: u64 = 0x20_0000; // 2 MiB
+pub const CTL_LEN: u64 = 0x80_0000; // 8 MiB (sparse file)
 pub const SLOT_BASE: u64 = 0x1000; // per-thread slots inside the control mapping
 pub const SLOT_SIZE: u64 = 64;
 pub const SIGLOG_BASE: u64 = 0x10_0000; // per-thread signal logs
-pub const SIGLOG_SIZE: u64 = 0x2000; // 512 entries of 16 bytes
+pub const SIGLOG_SIZE: u64 = 0x8000; // 2048 entries of 16 bytes
 pub const MAX_THREADS: usize = 120;
 /// harness-chosen regions live here
 pub const REGION_BASE: u64 = 0x2000_0000_0000;
